@@ -22,6 +22,8 @@ pub enum Leg {
     QueueSweep { jmax_q: usize, jmax_t: usize },
     /// the VM program stream on one vrun process per supported feature set
     Matrix,
+    /// the program stream on the feature sets that include `logger`, with a recording logger
+    MatrixLogger,
 }
 
 pub struct PropSpec {
@@ -68,6 +70,17 @@ pub fn all() -> Vec<PropSpec> {
             "matrix builds use a reduced closure-shape family (24 shapes) to keep 19 builds fast; the full family is exercised by C01/C17",
             "each vrun also runs the lock-step monitor, so every set individually gets the C01-C06 oracles; the trace hash covers item starts with the now value seen, un-run drops, Ret/Fwd handler invocations, notifications with cause and payload tag, value drops, message drops, returned bools/Options/lens",
             "Actor::id()/LogID values and logger output are not part of the trace (documented to differ without the logger feature)",
+        ],
+    });
+    v.push(PropSpec {
+        min_nontrivial: 200,
+        id: "C20",
+        legs: vec![Leg::MatrixLogger],
+        rule: "actor programs (C02-C04 shape: every init style, stop/fail/kill/owner-drop, actors created from the top level, from Prep/Ready methods and in slabs) run in each of the 7 feature sets that include logger (6 of the 18 supported plus logger alone) with a recording logger installed under one of 9 filters built with from_str/all/|/new, changed once mid-program with set_log_filter; after every run each of the 9 levels is probed with core.log and log_check; non-trivial = >= 3 actors, >= 2 different causes, >= 1 child with a non-zero parent id and >= 1 generated record blocked by the filter; distinct = distinct byte strings",
+        assumptions: vec![
+            "the logger callback only records (logging from inside the logger is dropped by design)",
+            "reference reading of LogFilter used as oracle: a severity level enables itself and everything above up to Error, Audit stands alone, Open and Close come together, Off enables nothing",
+            "Open is checked right after creation returns, Close at the moment the notifier is invoked (the Close record is written just before the notification)",
         ],
     });
     v
@@ -194,6 +207,10 @@ pub fn describe_leg(leg: &Leg, thorough: bool) -> Value {
             "cases_requested": if thorough { *th } else { *quick },
             "byte_length_range": if thorough { [len_t.0, len_t.1] } else { [len_q.0, len_q.1] },
         }),
+        Leg::MatrixLogger => json!({
+            "kind": "proptest programs sent to one persistent vrun process per feature set that includes logger, recording logger installed",
+            "programs_requested": if thorough { 2_000_000 } else { 160_000 },
+        }),
         Leg::Matrix => json!({
             "kind": "feature-matrix differential: proptest programs sent to one persistent vrun process per feature set",
             "programs_requested": if thorough { 400_000 } else { 40_000 },
@@ -225,7 +242,8 @@ pub fn run_leg(prop: &str, idx: usize, leg: &Leg, thorough: bool, deadline: Inst
             if thorough { *len_t } else { *len_q },
             deadline,
         ),
-        Leg::Matrix => crate::matrix::run_leg(prop, idx, thorough, deadline),
+        Leg::Matrix => crate::matrix::run_leg(prop, idx, thorough, deadline, false),
+        Leg::MatrixLogger => crate::matrix::run_leg(prop, idx, thorough, deadline, true),
         Leg::QueueSweep { jmax_q, jmax_t } => run_sweep(prop, idx, if thorough { *jmax_t } else { *jmax_q }, deadline),
     }
 }
@@ -299,6 +317,7 @@ pub fn run_findings(prop: &str) -> (Vec<String>, Vec<(String, String)>, usize) {
 pub fn replay_special(engine: &str, v: &Value, path: &Path, _verbose: bool) -> i32 {
     match engine {
         "matrix" => crate::matrix::replay(v, path),
+        "matrix-logger" => crate::matrix::replay_logger(v, path),
         "queue-sweep" => {
             let g = |k: &str| v[k].as_u64().unwrap() as usize;
             match vcore::queues::sweep_point(g("j"), g("k"), g("shape"), g("tail")) {
